@@ -115,12 +115,12 @@ T(strtolowercase_s) { r->rc = _strtolowercase_s_chk(DP(c), SZ(c->dmax, STRMAX), 
 T(strtouppercase_s) { r->rc = _strtouppercase_s_chk(DP(c), SZ(c->dmax, STRMAX), B(c->dbos, 1)); }
 T(strljustify_s) { r->rc = _strljustify_s_chk(DP(c), SZ(c->dmax, STRMAX), B(c->dbos, 1)); }
 T(strremovews_s) { r->rc = _strremovews_s_chk(DP(c), SZ(c->dmax, STRMAX), B(c->dbos, 1)); }
-T(strnterminate_s) { r->rc = 0; r->o1 = (long)_strnterminate_s_chk(DP(c), SZ(c->dmax, STRMAX), B(c->dbos, 1)); r->has_o1 = 1; }
+T(strnterminate_s) { r->rc = -7777; r->o1 = (long)_strnterminate_s_chk(DP(c), SZ(c->dmax, STRMAX), B(c->dbos, 1)); r->has_o1 = 1; }
 T(wcslwr_s) { r->rc = _wcslwr_s_chk(DP(c), SZ(c->dmax, WSTRMAX), B(c->dbos, 4)); }
 T(wcsupr_s) { r->rc = _wcsupr_s_chk(DP(c), SZ(c->dmax, WSTRMAX), B(c->dbos, 4)); }
 /* ---- queries ---- */
-T(strnlen_s) { r->rc = 0; r->o1 = (long)_strnlen_s_chk(DP(c), SZ(c->dmax, STRMAX), B(c->dbos, 1)); r->has_o1 = 1; }
-T(wcsnlen_s) { r->rc = 0; r->o1 = (long)_wcsnlen_s_chk(DP(c), SZ(c->dmax, WSTRMAX), B(c->dbos, 4)); r->has_o1 = 1; }
+T(strnlen_s) { r->rc = -7777; r->o1 = (long)_strnlen_s_chk(DP(c), SZ(c->dmax, STRMAX), B(c->dbos, 1)); r->has_o1 = 1; }
+T(wcsnlen_s) { r->rc = -7777; r->o1 = (long)_wcsnlen_s_chk(DP(c), SZ(c->dmax, WSTRMAX), B(c->dbos, 4)); r->has_o1 = 1; }
 #define OUTI int o = -7777; int *op = (c->flags & 1) ? NULL : &o
 #define OUTZ rsize_t o = 7777; rsize_t *op = (c->flags & 1) ? NULL : &o
 #define OUTP char *o = (char *)R.rw; char **op = (c->flags & 1) ? NULL : &o
@@ -146,7 +146,7 @@ T(strfirstsame_s) { OUTZ; r->rc = _strfirstsame_s_chk(DP(c), SZ(c->dmax, STRMAX)
 T(strlastdiff_s) { OUTZ; r->rc = _strlastdiff_s_chk(DP(c), SZ(c->dmax, STRMAX), SP(c), op, B(c->dbos, 1)); FINI; }
 T(strlastsame_s) { OUTZ; r->rc = _strlastsame_s_chk(DP(c), SZ(c->dmax, STRMAX), SP(c), op, B(c->dbos, 1)); FINI; }
 T(strprefix_s) { r->rc = _strprefix_s_chk(DP(c), SZ(c->dmax, STRMAX), SP(c), B(c->dbos, 1)); }
-#define BOOLT(name) T(name) { r->rc = 0; r->o1 = (long)_##name##_chk(DP(c), SZ(c->dmax, STRMAX), B(c->dbos, 1)); r->has_o1 = 1; }
+#define BOOLT(name) T(name) { r->rc = -7777; r->o1 = (long)_##name##_chk(DP(c), SZ(c->dmax, STRMAX), B(c->dbos, 1)); r->has_o1 = 1; }
 BOOLT(strisalphanumeric_s) BOOLT(strisascii_s) BOOLT(strisdigit_s) BOOLT(strishex_s)
 BOOLT(strislowercase_s) BOOLT(strismixedcase_s) BOOLT(strispassword_s) BOOLT(strisuppercase_s)
 #define OUTV void *o = (void *)R.rw; void **op = (c->flags & 1) ? NULL : &o
@@ -160,8 +160,8 @@ T(wcscmp_s) { OUTI; r->rc = _wcscmp_s_chk(DP(c), SZ(c->dmax, WSTRMAX), SP(c), SZ
 T(wcsncmp_s) { OUTI; r->rc = _wcsncmp_s_chk(DP(c), SZ(c->dmax, WSTRMAX), SP(c), SZ(c->slen, WSTRMAX), SZ(c->n, WSTRMAX), op, B(c->dbos, 4), B(c->sbos, 4)); FINI; }
 T(wcsstr_s) { wchar_t *o = (wchar_t *)R.rw; wchar_t **op = (c->flags & 1) ? NULL : &o;
     r->rc = _wcsstr_s_chk(DP(c), SZ(c->dmax, WSTRMAX), SP(c), SZ(c->slen, WSTRMAX), op, B(c->dbos, 4), B(c->sbos, 4)); FINP; }
-T(timingsafe_bcmp) { r->rc = 0; r->o1 = _timingsafe_bcmp_chk(DP(c), SP(c), (size_t)c->n, B(c->dbos, 1), B(c->sbos, 1)); r->has_o1 = 1; }
-T(timingsafe_memcmp) { r->rc = 0; r->o1 = _timingsafe_memcmp_chk(DP(c), SP(c), (size_t)c->n, B(c->dbos, 1), B(c->sbos, 1)); r->has_o1 = 1; }
+T(timingsafe_bcmp) { r->rc = -7777; r->o1 = _timingsafe_bcmp_chk(DP(c), SP(c), (size_t)c->n, B(c->dbos, 1), B(c->sbos, 1)); r->has_o1 = 1; }
+T(timingsafe_memcmp) { r->rc = -7777; r->o1 = _timingsafe_memcmp_chk(DP(c), SP(c), (size_t)c->n, B(c->dbos, 1), B(c->sbos, 1)); r->has_o1 = 1; }
 
 #define E(name) {#name, t_##name}
 static const struct { const char *name; thunk_t fn; } TAB[] = {
